@@ -596,9 +596,11 @@ class ExcelCompiler:
                         walk_precedents(child_cell)
                     else:
                         # trim this cell, now we will need only its value
-                        if child_cell.formula and child_cell.needs_calc:
+                        if child_cell.formula and (
+                                child_cell.needs_calc or self.cycles):
                             # a formula that was never evaluated (or was reset)
-                            # has no value to keep yet
+                            # has no value to keep yet; iterative mode never
+                            # resets, what the cell holds may be out of date
                             self.evaluate(child_address)
                         needed_cells.add(child_address)
                         child_cell.formula = None
